@@ -1,8 +1,19 @@
 #!/bin/bash
-# tools/run_seed.sh <seed-dir-name> <PROP> [tier] : apply a seeded mutation to /repo, run the check, undo.
+# tools/run_seed.sh <seed-dir-name> <PROP> [tier] : apply a seeded mutation, run the check, undo.
+# Default: applies to /repo itself (and restores it). With SEED_SCRATCH=1 the change is applied in a
+# scratch worktree (/tmp/seedrepo) and the check is pointed at it, so /repo is never touched.
 S=/verif/seeded/$1; P=$2; T=${3:-quick}
-cd /repo && [ -z "$(git status --porcelain)" ] || { echo "/repo not clean"; exit 9; }
-git -C /repo apply $S/patch.diff || exit 8
-cd /verif && ./check $P $T > /tmp/seedrun.$1.$P.$T.log 2>&1; RC=$?
-git -C /repo checkout -- .
+if [ -n "${SEED_SCRATCH:-}" ]; then
+  R=/tmp/seedrepo
+  [ -d $R ] || git -C /repo worktree add -q --detach $R HEAD
+  (cd $R && git checkout -q -- . && git clean -fdq && git checkout -q --detach $(git -C /repo rev-parse HEAD))
+  git -C $R apply $S/patch.diff || exit 8
+  cd /verif && GOSYM_REPO=$R GOSYM_WORKDIR_SUFFIX=-seed ./check $P $T > /tmp/seedrun.$1.$P.$T.log 2>&1; RC=$?
+  (cd $R && git checkout -q -- . && git clean -fdq)
+else
+  cd /repo && [ -z "$(git status --porcelain)" ] || { echo "/repo not clean"; exit 9; }
+  git -C /repo apply $S/patch.diff || exit 8
+  cd /verif && ./check $P $T > /tmp/seedrun.$1.$P.$T.log 2>&1; RC=$?
+  git -C /repo checkout -- .
+fi
 echo "seed=$1 check=$P tier=$T exit=$RC"; grep -E "^(VIOLATION|KNOWN|INCONCLUSIVE|ENGINE)" /tmp/seedrun.$1.$P.$T.log | head -5; grep "violation in" /tmp/seedrun.$1.$P.$T.log | head -3
